@@ -306,7 +306,9 @@ def _r6(rep, src, label, full):
             while isinstance(e, (ast.Call, ast.Attribute)):
                 e = e.func if isinstance(e, ast.Call) else e.value
             return isinstance(e, ast.Name) and e.id == 'self'
-        strict = any(isinstance(c, ast.Call) and norm(c.func) == 'DB' for c in ast.walk(f.node)) or \
+        strict = any(isinstance(c, ast.Call) and (norm(c.func) in ('DB', 'self.__class__', 'type(self)') or (
+            isinstance(c.func, ast.Attribute) and norm(c.func.value) in ('DB', 'self.__class__', 'type(self)', 'cls') and ('DB.' + c.func.attr) in m.funcs))
+                     for c in ast.walk(f.node)) or \
             any(isinstance(r_, ast.Return) and isinstance(r_.value, ast.Call) and isinstance(r_.value.func, ast.Attribute)
                 and rooted_at_self(r_.value.func.value) and ('DB.' + r_.value.func.attr) in m.funcs for r_ in ast.walk(f.node))
         # ... or a method that calls another method of the collection and returns a name (res = self.filter_tags(f); ...; return res):
